@@ -38,6 +38,7 @@ def logical_codes(keycols):
 
 
 # ------------------------------------------------------------------ key materialisation
+KEY_TZ = "US/Eastern"
 def key_label(rank, kind):
     if kind == "int":
         return 10 * rank + 3
@@ -49,6 +50,8 @@ def key_label(rank, kind):
         return STR[rank]
     if kind == "dt":
         return pd.Timestamp(EPOCH + rank * DAY)
+    if kind == "dttz":
+        return pd.Timestamp(EPOCH + rank * DAY, tz="UTC").tz_convert(KEY_TZ)
     if kind == "bool":
         return bool(rank)
     raise ValueError(kind)
@@ -70,8 +73,26 @@ def make_key(col, kind, container="numpy", index=None, name=None, chunks=None, n
         arr = np.array([np.nan if r is None else key_label(r, kind) for r in col], dtype="float64")
     elif kind == "str":
         arr = np.array([None if r is None else STR[r] for r in col], dtype=object)
-    elif kind == "dt":
+    elif kind in ("dt", "dttz"):
         arr = np.array([np.datetime64("NaT", "ns") if r is None else EPOCH + r * DAY for r in col], dtype="datetime64[ns]")
+        if kind == "dttz":
+            # time-zone aware timestamps: NumPy and (here) polars cannot carry the zone, those containers fall back to pandas
+            ser = pd.Series(arr, index=index, name=name).dt.tz_localize("UTC").dt.tz_convert(KEY_TZ)
+            if container in ("numpy", "pandas", "polars"):
+                return ser
+            if container == "index":
+                return pd.DatetimeIndex(ser, name=name)
+            pa_arr = pa.Array.from_pandas(ser)
+            if container == "arrow":
+                return pa_arr
+            if container == "pandas_arrow":
+                return pd.Series(pd.arrays.ArrowExtensionArray(pa_arr), index=index, name=name)
+            chunks = chunks or [len(col)]
+            pieces, st = [], 0
+            for ln in chunks:
+                pieces.append(pa_arr.slice(st, ln))
+                st += ln
+            return pa.chunked_array(pieces, type=pa_arr.type)
     elif kind == "bool":
         arr = np.array([bool(r) for r in col], dtype=bool)
     elif kind == "cat":
@@ -124,6 +145,11 @@ def label_to_rank(label, kind):
         return int(round((float(label) + 2.0) / 1.5))
     if kind in ("str", "cat"):
         return STR.index(str(label))
+    if kind == "dttz":
+        ts = pd.Timestamp(label)
+        if ts.tzinfo is None:
+            return "time-zone-lost"          # a label of a time-zone aware key must carry the zone (never equals a rank)
+        return int((ts.tz_convert(None).to_datetime64().astype("datetime64[ns]") - EPOCH) // DAY)
     if kind == "dt":
         ts = pd.Timestamp(label)
         if ts.tzinfo is not None:
